@@ -185,9 +185,17 @@ func (sp *spec) build() (func(), func(x *vsched.Exec) (string, error)) {
 			return "", fmt.Errorf("run did not return: %v", rerr)
 		}
 		o := (&gprog.Model{}).Run(sp.prog, input)
+		// a failing behaviour counts only if the sequential model executes that node at all (a node that a branch
+		// skips never runs, whatever its body would do)
+		executed := map[string]bool{}
+		for _, st := range o.Steps {
+			for _, e := range st {
+				executed[e.Path] = true
+			}
+		}
 		anyFail := false
-		for _, b := range sp.beh {
-			if b.fail != "" {
+		for path, b := range sp.beh {
+			if b.fail != "" && executed[path] {
 				anyFail = true
 			}
 		}
@@ -232,8 +240,12 @@ func (sp *spec) build() (func(), func(x *vsched.Exec) (string, error)) {
 				if strings.Contains(p, "/") {
 					continue
 				}
-				if rec.Post[p] != 1 {
-					return "", fmt.Errorf("node %s was started once but collected %d times (post-handler count)", p, rec.Post[p])
+				want := 0
+				if executed[p] {
+					want = 1
+				}
+				if rec.Post[p] != want {
+					return "", fmt.Errorf("node %s was started %d time(s) but collected %d times (post-handler count)", p, want, rec.Post[p])
 				}
 			}
 		}
